@@ -46,6 +46,7 @@ HDR = "From Coq Require Import String List Bool ZArith.\nFrom LNML Require Impor
 def obligations(ck, t):
     """-> True when every instance file compiled"""
     allok = True
+    paths = []
     tabs = t["json"]["writer"]
     for kind in KINDS:
         body = [HDR]
@@ -54,9 +55,7 @@ def obligations(ck, t):
                 body.append("Lemma layout_%s : layout_ok gen (nth %d (g_writer gen) (nth 0 (g_writer gen) "
                             "{| wt_kind := EmptyString; wt_flags := nil; wt_names := nil; wt_variants := nil; wt_gattrs := nil |})) = true.\n"
                             "Proof. vm_compute. reflexivity. Qed.\n" % (tab_name(i, w), i))
-        path = ck.gen_v("Inst_C05_layout_%s.v" % kind, "\n".join(body))
-        ok, _ = ck.compile_obligations(path, kind="instance")
-        allok = allok and ok
+        paths.append(ck.gen_v("Inst_C05_layout_%s.v" % kind, "\n".join(body)))
     for fn, lem, stmt in (("layout", "all_layouts", "all_layouts_ok gen = true"),
                           ("stores", "all_stores", "all_stores_ok gen = true"),
                           ("skeleton", "skeleton", "skeleton_ok gen = true"),
@@ -73,9 +72,15 @@ def obligations(ck, t):
                           ("builder", "builder", "builder_ok gen = true"),
                           ("refuse", "refuse", "refuse_ok gen = true"),
                           ("units", "delay_units_ok", "units_ok gen = true")):
-        path = ck.gen_v("Inst_C05_%s.v" % fn, HDR + "Lemma %s : %s.\nProof. vm_compute. reflexivity. Qed.\n" % (lem, stmt))
-        ok, _ = ck.compile_obligations(path, kind="instance")
-        allok = allok and ok
+        paths.append(ck.gen_v("Inst_C05_%s.v" % fn, HDR + "Lemma %s : %s.\nProof. vm_compute. reflexivity. Qed.\n" % (lem, stmt)))
+    # the instance files are independent of each other: compile them side by side, record them in a fixed order
+    from concurrent.futures import ThreadPoolExecutor
+    n0 = len(ck.obligations)
+    with ThreadPoolExecutor(max_workers=6) as ex:
+        oks = list(ex.map(lambda pth: ck.compile_obligations(pth, kind="instance")[0], paths))
+    allok = all(oks)
+    rank = dict((os.path.basename(pth), i) for i, pth in enumerate(paths))
+    ck.obligations[n0:] = sorted(ck.obligations[n0:], key=lambda o: rank.get(o["name"].split(":")[0], 99))
     return allok
 
 
@@ -1149,7 +1154,7 @@ def run(ck):
                        reason="mixed-" + ":".join(label.split(":")[:2]))
 
     # ---- every run (frame clause): use the document once, edit it in place, write again: the EDITED document must come back
-    hc = history_cases(ck.rng, ck.n(12, 150))
+    hc = history_cases(ck.rng, ck.n(8, 150))
     res = ck.impl("c05_impl.py", {"cases": [{"spec": a, "after_spec": b, "action": act, "modes": ["plain"], "expect": "same"} for _, a, b, act in hc]},
                   timeout=1500)["results"]
     for (label, a, b, act), rr in zip(hc, res):
@@ -1199,7 +1204,7 @@ def run(ck):
         correspondence(ck, t, ck.n(150, 1200))
 
     # ---- generated documents over the full quantifier
-    n = ck.n(180, 3000)
+    n = ck.n(150, 3000)
     specs = [gen_doc(ck.rng, i) for i in range(n)]
     nopt = ck.n(40, 300)
     B = 150
